@@ -14,10 +14,10 @@ namespace Props.C07
 open NcStore
 
 /-- a cell netCDF can give back: an unmasked value that is not one of the values read as missing; a masked
-cell of a variable that has a fill (any of the three attributes) or, for rank 0, a default fill -/
+cell of a variable that has a fill (any of the three attributes) or whose type has a default fill -/
 def CellOk (v : Var) : Option Rat → Prop
   | some x => diskFill v ≠ some x ∧ v.missing ≠ some x ∧ ¬ (diskFill v = none ∧ defaultFill v.dt = some x)
-  | none => (diskFill v).isSome = true ∨ (v.dims = [] ∧ (defaultFill v.dt).isSome = true)
+  | none => (diskFill v).isSome = true ∨ (defaultFill v.dt).isSome = true
 
 theorem missing_none_of_diskFill_none {v : Var} (h : diskFill v = none) : v.missing = none := by
   unfold diskFill at h
@@ -43,13 +43,13 @@ theorem cell_roundtrip (v : Var) (c : Option Rat) (h : CellOk v c) :
       rw [this]
       simp [readCell]
     | none =>
-      rcases h with h | ⟨hdims, hdef⟩
+      rcases h with h | hdef
       · simp [hd] at h
       · cases hdf : defaultFill v.dt with
         | none => simp [hdf] at hdef
         | some x =>
           have hm := missing_none_of_diskFill_none hd
-          simp [hdims, libFill, hd, hdf, readCell, hm]
+          simp [libFill, writeFill, hd, hdf, readCell, hm]
 
 /-- a variable netCDF can give back -/
 structure VarOk (v : Var) : Prop where
@@ -157,7 +157,7 @@ theorem varOk_withUfill (v : Var) (h : VarOk v) : VarOk { v with ufill := diskFi
       ¬ (diskFill { v with ufill := diskFill v } = none ∧ defaultFill v.dt = some x)
     rw [hd]; exact hc0
   | none =>
-    show (diskFill { v with ufill := diskFill v }).isSome = true ∨ (v.dims = [] ∧ (defaultFill v.dt).isSome = true)
+    show (diskFill { v with ufill := diskFill v }).isSome = true ∨ (defaultFill v.dt).isSome = true
     rw [hd]; exact hc0
 
 /-- **second cycle (C07)**: what a save/open cycle returns is a fixed point — saving the reopened file again and
@@ -186,5 +186,14 @@ theorem second_cycle (fl : Flavour) (f : File) (hrep : ∀ v ∈ f.vars, represe
   intro v _
   simp only [Function.comp]
   rw [diskFill_withUfill]
+
+/-- **what the last repair fixed**: a float variable without any fill whose stored data hold netCDF's default fill
+(cells never written) reads those cells as masked; written back with -9999 (`writeFill9999`) the cell is read as the
+number -9999, written back with the default fill it is read as masked again -/
+theorem default_fill_counterexample :
+    let v : Var := ⟨"x", .f4, ["n"], [], none, none, none, true, [some 1, none, some 3]⟩
+    readCell v.dt (diskFill v) v.missing (writeFill9999 v) = some (-9999) ∧
+    readCell v.dt (diskFill v) v.missing (writeFill v) = none := by
+  constructor <;> decide +kernel
 
 end Props.C07
